@@ -545,7 +545,7 @@ func (r *ReplaceFieldsExpr) SQL() string {
 func (n *WithExprVar) SQL() string { return n.Name.SQL() + " AS " + n.Expr.SQL() }
 
 func (w *WithExpr) SQL() string {
-	return "WITH(" + sqlJoin(w.Vars, ", ") + ", " + w.Expr.SQL() + ")"
+	return "WITH(" + sqlJoin(w.Vars, ", ") + strOpt(len(w.Vars) > 0, ", ") + w.Expr.SQL() + ")"
 }
 
 func (c *CastExpr) SQL() string {
